@@ -769,3 +769,6 @@ fn test_clear() {
     assert_eq!(ctx.get_field_value(bool_field), None);
     assert_eq!(ctx.get_field_value(ip_field), None);
 }
+
+#[cfg(kani)]
+pub(crate) mod verif_kani;
